@@ -921,7 +921,20 @@ def main():
                 os.remove(os.path.join(COQ, 'gen', 'Options' + ext))
             except OSError:
                 pass
-    failures = ck.prove(gen=['gen/Options.v'] if tables else []) + tr_fail
+    mains = None
+    try:
+        import translate_mains
+        mains = translate_mains.main()
+    except Exception as e:  # noqa  (TranslationError of either translator)
+        tr_fail.append('translator (main functions): ' + str(e))
+        for ext in ('.v', '.vo', '.vok', '.vos', '.glob'):
+            try:
+                os.remove(os.path.join(COQ, 'gen', 'Mains' + ext))
+            except OSError:
+                pass
+    failures = ck.prove(gen=(['gen/Options.v'] if tables else []) + (['gen/Mains.v'] if mains else [])) + tr_fail
+    if mains:
+        ck.cov['main_writes'] = {n: [k, l] for n, k, l in mains}
     if tables:
         ck.cov['option_tables'] = {k: len(v) for k, v in tables.items()}
     jobs = build_jobs(ck) + sep_jobs(ck) + option_jobs(ck) + failure_jobs(ck)
